@@ -827,6 +827,7 @@ impl Program {
     pub fn into_instructions(self) -> Vec<Instruction> {
         let mut instructions: Vec<Instruction> = Vec::with_capacity(self.len());
 
+        instructions.extend(self.extern_pragma_map.into_instructions());
         instructions.extend(self.memory_regions.into_iter().map(|(name, descriptor)| {
             Instruction::Declaration(Declaration {
                 name,
@@ -849,7 +850,6 @@ impl Program {
                 .into_values()
                 .map(Instruction::CircuitDefinition),
         );
-        instructions.extend(self.extern_pragma_map.into_instructions());
         instructions.extend(self.instructions);
         instructions
     }
